@@ -71,3 +71,13 @@ func (f *VFSFile) PurgePageCache() {
 		f.cache.Purge()
 	}
 }
+
+// HydrationState reports whether a hydrator exists, whether reads are currently
+// served from the hydrated file (Hydrator.Complete), the TXID the hydrated file
+// is at and any fatal hydration error.
+func (f *VFSFile) HydrationState() (enabled, complete bool, txid ltx.TXID, err error) {
+	if f.hydrator == nil {
+		return false, false, 0, nil
+	}
+	return true, f.hydrator.Complete(), f.hydrator.TXID(), f.hydrator.Err()
+}
